@@ -13,6 +13,7 @@ import (
 
 // Program is the loaded SSA form of /repo's current working tree.
 type Program struct {
+	embedded map[string]bool
 	Prog  *ssa.Program
 	Pkgs  map[string]*ssa.Package // by import path
 	PPkgs map[string]*packages.Package
@@ -59,6 +60,112 @@ func load(patterns ...string) (*Program, error) {
 		}
 	}
 	return p, nil
+}
+
+// embeddedTypes: the named struct types (pkgpath.Name) that occur by value inside another type anywhere in the loaded
+// program: as a struct field, as the element of an array or slice, as a map key/value or channel element. It walks
+// every type that go/types recorded for any expression or definition of every loaded package (so local types and
+// composite literals count), conservatively.
+func (p *Program) embeddedTypes() map[string]bool {
+	if p.embedded != nil {
+		return p.embedded
+	}
+	emb := map[string]bool{}
+	seen := map[types.Type]bool{}
+	var mark func(t types.Type)
+	var walk func(t types.Type)
+	mark = func(t types.Type) {
+		if n, ok := types.Unalias(t).(*types.Named); ok && n.Obj().Pkg() != nil {
+			if _, isStruct := n.Underlying().(*types.Struct); isStruct {
+				emb[n.Obj().Pkg().Path()+"."+n.Obj().Name()] = true
+			}
+		}
+		if st, ok := t.Underlying().(*types.Struct); ok {
+			_ = st
+		}
+		if a, ok := t.Underlying().(*types.Array); ok {
+			mark(a.Elem())
+		}
+	}
+	walk = func(t types.Type) {
+		if t == nil || seen[t] {
+			return
+		}
+		seen[t] = true
+		switch u := t.(type) {
+		case *types.Named:
+			walk(u.Underlying())
+			for i := 0; i < u.NumMethods(); i++ {
+				walk(u.Method(i).Type())
+			}
+		case *types.Alias:
+			walk(types.Unalias(u))
+		case *types.Pointer:
+			walk(u.Elem())
+		case *types.Slice:
+			mark(u.Elem())
+			walk(u.Elem())
+		case *types.Array:
+			mark(u.Elem())
+			walk(u.Elem())
+		case *types.Map:
+			mark(u.Key())
+			mark(u.Elem())
+			walk(u.Key())
+			walk(u.Elem())
+		case *types.Chan:
+			mark(u.Elem())
+			walk(u.Elem())
+		case *types.Struct:
+			for i := 0; i < u.NumFields(); i++ {
+				mark(u.Field(i).Type())
+				walk(u.Field(i).Type())
+			}
+		case *types.Signature:
+			walk(u.Params())
+			walk(u.Results())
+		case *types.Tuple:
+			for i := 0; i < u.Len(); i++ {
+				walk(u.At(i).Type())
+			}
+		case *types.Interface:
+			for i := 0; i < u.NumMethods(); i++ {
+				walk(u.Method(i).Type())
+			}
+		}
+	}
+	seenPkg := map[string]bool{}
+	var visit func(pp *packages.Package)
+	visit = func(pp *packages.Package) {
+		if pp == nil || seenPkg[pp.PkgPath] {
+			return
+		}
+		seenPkg[pp.PkgPath] = true
+		if pp.Types != nil {
+			sc := pp.Types.Scope()
+			for _, n := range sc.Names() {
+				walk(sc.Lookup(n).Type())
+			}
+		}
+		if pp.TypesInfo != nil {
+			for _, tv := range pp.TypesInfo.Types {
+				walk(tv.Type)
+			}
+			for _, o := range pp.TypesInfo.Defs {
+				if o != nil {
+					walk(o.Type())
+				}
+			}
+		}
+		for _, imp := range pp.Imports {
+			visit(imp)
+		}
+	}
+	for _, pp := range p.PPkgs {
+		visit(pp)
+	}
+	p.embedded = emb
+	return emb
 }
 
 // lookupFunc finds "Name" or "Type.Method" or "(*Type).Method" in the package.
